@@ -272,7 +272,7 @@ func C04(c *core.Ctx) {
 	if len(jobs) > budget {
 		var rest, deep []extJob
 		for _, j := range jobs {
-			if j.label == "bfs-depth-3" {
+			if j.label == "bfs-depth-3" || j.label == "walk" {
 				deep = append(deep, j)
 			} else {
 				rest = append(rest, j)
@@ -289,8 +289,8 @@ func C04(c *core.Ctx) {
 				rest = append(rest, j)
 			}
 		}
-		c.Extra["bfs_depth3_sampled_1_in"] = stride
-		c.Extra["bfs_depth3_generated_jobs"] = len(deep)
+		c.Extra["bfs_depth3_and_walks_sampled_1_in"] = stride
+		c.Extra["bfs_depth3_and_walk_jobs_generated"] = len(deep)
 		jobs = rest
 	}
 	extRunAll(c, jobs, "ExtTree_Trace", "ExtTree_Trace.cfg", c04Sig)
